@@ -77,6 +77,9 @@ pub struct MItem {
     pub depth: u32,
     /// the item is the delivery of a ret_to!-style Ret: losing it is also a C05 matter
     pub ret_tag: bool,
+    /// submitted while a later Stakker exists on this thread (by Drop handlers of leftovers
+    /// discarded in Stakker::new): legitimately belongs to that Stakker
+    pub second: bool,
 }
 
 /// Entries of the abstract main queue
@@ -166,6 +169,7 @@ pub struct Monitor {
     /// Stakker drop in progress / done
     pub dropping: bool,
     pub gone: bool,
+    pub second_phase: bool,
     drop_gen: u32,
     /// item whose Drop handler is currently running (stack)
     drop_stack: Vec<ItemId>,
@@ -215,6 +219,7 @@ impl Monitor {
             main_since_lazy: true,
             dropping: false,
             gone: false,
+            second_phase: false,
             drop_gen: 0,
             drop_stack: Vec::with_capacity(8),
             deleting_timer: None,
@@ -252,6 +257,7 @@ impl Monitor {
             submitted_in_run: self.run_idx,
             depth: 0,
             ret_tag: false,
+            second: false,
         });
         id
     }
@@ -298,7 +304,8 @@ impl Monitor {
         it.st = IState::Pending;
         it.lazy_phase = if in_lazy { phase } else { 0 };
         it.gen = gen;
-        it.after_gone = after_gone;
+        it.after_gone = after_gone && !self.second_phase;
+        it.second = self.second_phase;
         it.submitted_in_run = run_idx;
         let depth = match (self.stack.last(), self.drop_stack.last()) {
             (_, Some(i)) | (Some(i), None) => self.items[*i as usize].depth + 1,
@@ -611,13 +618,39 @@ impl Monitor {
     // ------------------------------------------------------------------
     // Observations
 
+    /// An item runs inside a later Stakker created on this thread after the case's Stakker was
+    /// dropped.  Only items deferred while that later Stakker existed may do so; something deferred
+    /// after the first Stakker was gone must never execute (it is discarded by Stakker::new).
+    pub fn item_start_second(&mut self, id: ItemId) -> R {
+        let it = &self.items[id as usize];
+        if !it.second {
+            return Err(v(
+                &["C01", "C18"],
+                "ran-after-stakker-drop",
+                format!(
+                    "item i{} ({:?}) was deferred {} and was executed by a later Stakker on the same thread",
+                    id,
+                    it.kind,
+                    if it.after_gone { "after its Stakker was dropped" } else { "to a Stakker that was dropped with it pending" }
+                ),
+            ));
+        }
+        match it.st {
+            IState::Pending | IState::Held => {}
+            s => return Err(v(&["C01", "C16"], "ran-twice", format!("item i{} ran in state {:?}", id, s))),
+        }
+        self.remove_from_queues(id);
+        self.items[id as usize].st = IState::Ran;
+        Ok(())
+    }
+
     /// A closure / method body begins executing.  `now_seen` is Core::now() inside it.
     pub fn item_start(&mut self, id: ItemId, now_seen: i64) -> R {
         let it = self.items[id as usize].clone();
         let what = format!("item i{} ({:?}, {:?} queue) started", id, it.kind, it.q);
         if self.dropping || self.gone {
             return Err(v(
-                &["C01"],
+                &["C01", "C18"],
                 "ran-after-stakker-drop",
                 format!("{} after drop(stakker) began", what),
             ));
@@ -1532,6 +1565,18 @@ impl Monitor {
             }
         }
         out
+    }
+
+    /// May the later Stakker of the end-of-case flush be run?  Not if a pending call could end up
+    /// held by an actor that is still in Prep (that would stage finding F2a by the harness's own doing).
+    pub fn second_run_safe(&self) -> bool {
+        !self.items.iter().any(|it| {
+            matches!(it.st, IState::Pending)
+                && match it.kind {
+                    Kind::Call(a) | Kind::PrepCall(a) => self.actors[a as usize].st != AState::Zombie,
+                    Kind::Closure => false,
+                }
+        })
     }
 
     /// Does finding F2 apply to an abrupt drop(stakker) now?
